@@ -111,7 +111,8 @@ def _free_backup_name(path: str) -> str:
     return candidate
 
 
-def _migrate_csv_to_rules(csv_file: str, config_dir: str, backup: bool = True) -> bool:
+def _migrate_csv_to_rules(csv_file: str, config_dir: str, backup: bool = True,
+                          settings_file: str = 'settings.yaml') -> bool:
     """
     Migrate merchant_categories.csv to merchants.rules format.
 
@@ -119,10 +120,12 @@ def _migrate_csv_to_rules(csv_file: str, config_dir: str, backup: bool = True) -
         csv_file: Path to the CSV file
         config_dir: Path to config directory
         backup: Whether to rename old CSV to .bak
+        settings_file: Name of the settings file the budget is run with
 
     Returns:
         True if migration was successful
     """
+    from .config_loader import load_settings
     from .merchant_engine import csv_to_merchants_content
     from .merchant_utils import load_merchant_rules
     import shutil
@@ -144,16 +147,17 @@ def _migrate_csv_to_rules(csv_file: str, config_dir: str, backup: bool = True) -
         print(f"  {C.GREEN}✓{C.RESET} Created: config/merchants.rules")
         print(f"      Converted {len(csv_rules)} merchant rules to new format")
 
-        # Update settings.yaml to reference new file
-        settings_path = os.path.join(config_dir, 'settings.yaml')
+        # Update the settings file to reference new file. Whether it already does is decided the
+        # way load_config reads it: the text 'merchants_file:' in a comment or a longer key is not
+        # a setting, and neither is an empty one
+        settings_path = os.path.join(config_dir, settings_file)
         if os.path.exists(settings_path):
-            with open(settings_path, 'r', encoding='utf-8') as f:
-                content = f.read()
-            if 'merchants_file:' not in content:
+            settings = load_settings(config_dir, settings_file)
+            if not (isinstance(settings, dict) and settings.get('merchants_file')):
                 with open(settings_path, 'a', encoding='utf-8') as f:
                     f.write('\n# Merchant rules file (migrated from CSV)\n')
                     f.write('merchants_file: config/merchants.rules\n')
-                print(f"  {C.GREEN}✓{C.RESET} Updated: config/settings.yaml")
+                print(f"  {C.GREEN}✓{C.RESET} Updated: config/{settings_file}")
                 print(f"      Added merchants_file: config/merchants.rules")
 
         # Retire the old file last: until settings.yaml points at the new rules file the
@@ -169,7 +173,8 @@ def _migrate_csv_to_rules(csv_file: str, config_dir: str, backup: bool = True) -
         return False
 
 
-def _check_merchant_migration(config: dict, config_dir: str, quiet: bool = False, migrate: bool = False) -> list:
+def _check_merchant_migration(config: dict, config_dir: str, quiet: bool = False, migrate: bool = False,
+                              settings_file: str = 'settings.yaml') -> list:
     """
     Check if merchant rules should be migrated from CSV to .rules format.
 
@@ -178,6 +183,7 @@ def _check_merchant_migration(config: dict, config_dir: str, quiet: bool = False
         config_dir: Path to config directory
         quiet: Suppress output
         migrate: Force migration without prompting (for non-interactive use)
+        settings_file: Name of the settings file the config was loaded from
 
     Returns:
         List of merchant rules (in the format expected by existing code)
@@ -231,7 +237,7 @@ def _check_merchant_migration(config: dict, config_dir: str, quiet: bool = False
             # Perform migration using shared helper
             print(f"{C.CYAN}Migrating to new format...{C.RESET}")
             print()
-            if _migrate_csv_to_rules(merchants_file, config_dir, backup=True):
+            if _migrate_csv_to_rules(merchants_file, config_dir, backup=True, settings_file=settings_file):
                 print()
                 print(f"{C.GREEN}Migration complete!{C.RESET} Your rules now support expressions.")
                 print()
